@@ -1488,6 +1488,10 @@ impl Connection {
         if ack.largest >= self.spaces[space].next_packet_number {
             return Err(TransportError::PROTOCOL_VIOLATION("unsent packet acked"));
         }
+        // Whether the largest acknowledged packet is one whose transmission time we know, i.e. it
+        // can yield an RTT sample. Packets sent off-path (e.g. a PATH_CHALLENGE to the previous
+        // path) are not tracked: measuring from the previous largest would inflate the estimate.
+        let mut largest_tracked = false;
         let new_largest = {
             let space = &mut self.spaces[space];
             if space.largest_acked_packet.is_none_or(|pn| ack.largest > pn) {
@@ -1497,6 +1501,7 @@ impl Connection {
                     // haven't sent. At worst, that will result in us spuriously reducing the
                     // congestion window.
                     space.largest_acked_packet_sent = info.time_sent;
+                    largest_tracked = true;
                 }
                 true
             } else {
@@ -1557,7 +1562,7 @@ impl Connection {
             self.spaces[space].largest_acked_packet,
         );
 
-        if new_largest && ack_eliciting_acked {
+        if new_largest && largest_tracked && ack_eliciting_acked {
             let ack_delay = if space != SpaceId::Data {
                 Duration::from_micros(0)
             } else {
